@@ -148,6 +148,19 @@ def directed() -> List[Dict[str, Any]]:
                   "b.yaml": {"reserved": ["7610-7615"]}, "c.yaml": {"reserved": [7620, "7615 to 7617"]}},
                  tags=["id_conflict", "range_overlaps_range"]))
     D.append(one({"a.yaml": {"messages": [["MA", 10000, [F("v", "int32")]], ["MZ", 0, None]]}}, tags=["id_bounds_ok"]))
+    # expressions that mention constants many times (more references than distinct constants, more than ten of them)
+    many = "NX*NY + NX*NZ + NX*NW + NY*NZ + NY*NW + NZ*NW"
+    D.append(one({"a.yaml": {"constants": [["NX", "3", 3], ["NY", "4", 4], ["NZ", "5", 5], ["NW", "2", 2],
+                                           ["N_PAIR_TERMS", many, 71], ["N_TWICE", f"({many}) + ({many})", 142]],
+                             "structs": [["GRID", [F("cells", "int16", f"{many} - 60", 11), F("n", "int32")]]],
+                             "messages": [["MGRID", 1910, [F("g", "GRID", "NX*NX*NX*NX - NX*NX*NX*NX + NY - NX", 1),
+                                                           F("tail", "uint8", "NW*NW*NW*NW*NW*NW*NW*NW*NW*NW*NW*NW - 4090", 6)]]]}},
+                 tags=["many_references"]))
+    # user names that coincide with core_defs names of ANOTHER kind (module / host ids are namespaces of their own)
+    D.append(one({"a.yaml": {"mods": [["DATA_COLLECTION", 44], ["CONNECT_V2", 45]], "hosts": [["RTMA_MSG_HEADER", 7]],
+                             "messages": [["DATA_LOGGER", 1920, [F("v", "int32"), F("w", "int16"), F("x", "int16")]],
+                                          ["QUICK_LOGGER", 1921, None]]}},
+                 coredefs=True, tags=["coredefs", "core_name_other_kind"]))
     D.append(one({"a.yaml": {"messages": [["MA", 10001, [F("v", "int32")]]]}}, tags=["id_conflict", "id_above_max"]))
     D.append(one({"a.yaml": {"messages": [["MA", -1, None]]}}, tags=["id_conflict", "id_negative"]))
     D.append(one({"a.yaml": {"imports": ["b.yaml"], "messages": [["MA", 7700, [F("v", "int32")]]], "reserved": ["7701 to 7703"]},
